@@ -79,6 +79,15 @@ def pushOr (s : State) (pc ix : Nat) (k : State → StepResult) : StepResult :=
   | .overflow => .done .errStack
   | .ok s' => k s'
 
+/-- `Insn::End`: cap the reported start into `[pos, end]` (the lower cap is the F6 repair) -/
+def capStart (s : State) (pos : Nat) : Option State :=
+  match s.saves[1]? with
+  | none => some s
+  | some slot1 =>
+    (s.get 0).bind fun s0 =>
+      (if s0 > slot1 then s.save 0 slot1 else some s).bind fun s1 =>
+        (s1.get 0).bind fun s0' => if s0' < pos then s1.save 0 pos else some s1
+
 /-- one instruction at `pc` -/
 def step (c : Ctx) (prog : List Insn) (pc ix : Nat) (s : State) : StepResult :=
   match prog[pc]? with
@@ -86,23 +95,9 @@ def step (c : Ctx) (prog : List Insn) (pc ix : Nat) (s : State) : StepResult :=
   | some insn =>
   match insn with
   | .end_ =>
-    match s.saves[1]? with
-    | some slot1 =>
-      match s.get 0 with
-      | none => .done (.panic "get 0")
-      | some s0 =>
-        let s1 := if s0 > slot1 then s.save 0 slot1 else some s
-        match s1 with
-        | none => .done (.panic "save 0")
-        | some s1 =>
-          match s1.get 0 with
-          | none => .done (.panic "get 0")
-          | some s0' =>
-            let s2 := if s0' < c.pos then s1.save 0 c.pos else some s1
-            match s2 with
-            | none => .done (.panic "save 0")
-            | some s2 => .done (.matched s2.saves)
-    | none => .done (.matched s.saves)
+    match capStart s c.pos with
+    | some s' => .done (.matched s'.saves)
+    | none => .done (.panic "end")
   | .any =>
     match c.at? ix with
     | some _ => .cont (pc + 1) (ix + 1) s
